@@ -83,6 +83,21 @@ class NoInline(Exception):
     pass
 
 
+def helper_type(facts, cls):
+    """A record declared inside a function, inside another in-repo class (a nested guard / result struct) or in an unnamed
+    namespace, without bases and with at most a handful of members: a helper of the code around it."""
+    r = facts.records.get(cls)
+    if r is None or r.get("bases") or r.get("polymorphic") or len(r.get("fields", [])) > 6:
+        return False
+    if "(anonymous" in cls or ")::" in cls or "::" not in cls:
+        return (r.get("file") or "").startswith(facts.repo) if facts.repo else True
+    outer = cls.rsplit("::", 1)[0]
+    if outer in facts.records and (facts.records[outer].get("file") or "").startswith(facts.repo or ""):
+        # nested in a library class: only types that no rule names (tables of UNITS / KEEP_GETTERS go by function, not by type)
+        return not any(u.startswith(cls + "::") for u in list(UNITS) + list(KEEP_GETTERS))
+    return False
+
+
 def strip_targs(qn):
     out = []
     depth = 0
@@ -415,10 +430,15 @@ class Inliner:
         return f is not None and f["key"] != caller_key
 
     def tool_local_operator(self, cal):
-        """operator of a helper struct that a command-line tool defines for itself (src/bin/*.cpp): part of the tool's main,
+        """operator of a helper struct that a command-line tool defines for itself (src/bin/*.cpp), or any member function of a
+        small helper type declared inside a class or a function (a guard, a result struct): part of the code that uses it,
         not a unit any rule is phrased over"""
         q = cal.get("qn") or ""
-        if not q.split("::")[-1].startswith("operator") or not cal.get("cls"):
+        if not cal.get("cls"):
+            return False
+        if helper_type(self.facts, cal["cls"]) and not cal.get("ctor") and not cal.get("dtor"):
+            return True
+        if not q.split("::")[-1].startswith("operator"):
             return False
         r = self.facts.records.get(cal["cls"])
         return r is not None and "/src/bin/" in (r.get("file") or "")
@@ -836,8 +856,9 @@ class Inliner:
         if len(dtors) != 1 or not ir.stmts(dtors[0].get("body_raw", dtors[0]["body"])):
             return None
         d = dtors[0]
-        # only helper types that live inside a function or are file-local: a library class with a destructor is not a "guard"
-        if not (d.get("internal") or ")::" in (d.get("qn") or "") or "(anonymous" in (d.get("qn") or "")):
+        # only helper types that live inside a function / a class or are file-local: a library class with a destructor is not
+        # a "guard"
+        if not (d.get("internal") or ")::" in (d.get("qn") or "") or "(anonymous" in (d.get("qn") or "") or helper_type(self.facts, t)):
             return None
         ctors = [f for f in self.facts.functions.values() if f.get("cls") == t and f.get("ctor") and f.get("body") is not None]
         if any(ir.stmts(f.get("body_raw", f["body"])) for f in ctors):
@@ -851,7 +872,12 @@ class Inliner:
         None when the block is left in a way this rewriting does not cover."""
         def cleanup():
             body_i, _ = self.instantiate([], lam["body"], lam.get("recv"))
-            return ir.stmts(body_i)
+            out = ir.stmts(body_i)
+            for x in out:
+                if isinstance(x, dict):
+                    # runs inside a destructor: what it throws does not reach a handler around the guarded block
+                    x["guard_action"] = True
+            return out
         for x in rest:
             for n in walk(x):
                 if n.get("k") in ("Break", "Continue"):
@@ -881,8 +907,9 @@ class Inliner:
                     m[key] = v
             return m
         new = ins(rest)
+        final = []
         if not (new and ir.always_leaves({"k": "Block", "s": new})):
-            new = new + cleanup()
+            final = cleanup()
         # the guard also acts when an exception leaves the block: that is a handler that runs the action and throws on
         may_throw = any(x.get("k") in ("Call", "MCall", "OpCall", "Construct", "Throw", "New") for y in rest for x in walk(y))
         if may_throw:
@@ -890,7 +917,7 @@ class Inliner:
             handler = {"t": "...", "l": line, "synthetic": True,
                        "body": {"k": "Block", "l": line, "s": cleanup() + [{"k": "Throw", "l": line, "rethrow": True}]}}
             new = [{"k": "Try", "l": line, "synthetic": True, "body": {"k": "Block", "l": line, "s": new}, "handlers": [handler]}]
-        return new
+        return new + final
 
     def _wrap(self, s, sts):
         if len(sts) == 1 and sts[0].get("k") == "Block":
@@ -1002,7 +1029,7 @@ class Inliner:
             return False
         hit = False
         for n in walk(body_i):
-            if n.get("k") == "Call" and isinstance(n.get("fn"), dict) and not n.get("callee"):
+            if n.get("k") in ("Call", "MCall") and isinstance(n.get("fn"), dict) and not n.get("callee"):
                 f_ = unwrap(n["fn"])
                 while isinstance(f_, dict) and f_.get("k") in ("Cast", "Un") and (f_.get("k") == "Cast" or f_.get("op") == "*"):
                     f_ = unwrap(f_.get("e"))
@@ -1123,11 +1150,12 @@ class Inliner:
             return [s]
         prefix = []
         if isinstance(s, dict) and s.get("k") == "Decl" and len(s.get("vars", [])) == 1 and \
-                sum(1 for x in walk(body) if x.get("k") == "Return" and x.get("e") is not None) > 1 and not s["vars"][0].get("ref") and \
-                not (s["vars"][0].get("t") or "").startswith("const "):
+                sum(1 for x in walk(body) if x.get("k") == "Return" and x.get("e") is not None) > 1 and not s["vars"][0].get("ref"):
             # `T x = helper(..);` with a helper that returns from several places: declare x first, every return stores into it
             v = s["vars"][0]
             v0 = {kk: vv for kk, vv in v.items() if kk != "init"}
+            if (v0.get("t") or "").startswith("const "):
+                v0["t"] = v0["t"][6:]           # it now receives its value by assignment
             prefix = [{"k": "Decl", "l": s.get("l"), "vars": [v0]}]
 
             def K(e, v=v, s=s):
@@ -1187,7 +1215,10 @@ class Inliner:
             return None
         branches = [b for b in (n.get("then"), n.get("else")) if b is not None]
         size = sum(1 for b in branches for x in walk(b) if ir.is_stmt_kind(x) or x.get("k") in ("Bin", "Call", "MCall", "OpCall"))
-        if size > 12 or any(x.get("k") in ("Decl", "Lambda", "Return", "Break", "Continue", "Case", "Default") for b in branches for x in walk(b)):
+        if size > 12 or any(x.get("k") in ("Decl", "Lambda", "Break", "Continue", "Case", "Default") for b in branches for x in walk(b)):
+            return None
+        # (a branch may return: it is the caller's own return, copied as it is) but only a plain one
+        if any(x.get("k") == "Return" and x.get("e") is not None and not is_pure(x["e"], self.facts) for b in branches for x in walk(b)):
             return None
         parts = self.callee_parts(c, stack)
         if parts is None:
@@ -1413,6 +1444,17 @@ class Inliner:
                     n["e"] = e
                 return [n]
             return unwrap(s["e"]), K, True
+        if k == "Decl" and len(s.get("vars", [])) == 1 and s["vars"][0].get("init") is not None and not s["vars"][0].get("ref") and \
+                not is_call(s["vars"][0]["init"]):
+            # `T x = helper();` with a class type: the by-value result is moved (or constructed in place) into x
+            i0 = unwrap(s["vars"][0]["init"])
+            while isinstance(i0, dict) and ((i0.get("k") == "Construct" and i0.get("copymove") and len(i0.get("args", [])) == 1) or i0.get("k") == "Cast"):
+                i0 = unwrap(i0["args"][0] if i0.get("k") == "Construct" else i0.get("e"))
+            if i0 is not unwrap(s["vars"][0]["init"]) and is_call(i0) and helper_type(self.facts, (s["vars"][0].get("t") or "").replace("const ", "")):
+                s = dict(s)
+                v_ = dict(s["vars"][0])
+                v_["init"] = i0
+                s["vars"] = [v_]
         if k == "Decl" and len(s.get("vars", [])) == 1 and s["vars"][0].get("init") is not None and is_call(s["vars"][0]["init"]) \
                 and not s["vars"][0].get("ref"):
             v = s["vars"][0]
@@ -1711,6 +1753,9 @@ def fold_constants(body, enums):
             return n.get("val")
         if k == "Lit" and isinstance(n.get("v"), (int, bool)) and not n.get("float"):
             return int(n["v"])
+        if k == "Un" and n.get("op") == "!" and isinstance(n.get("e"), dict):
+            v = val(n["e"])
+            return None if v is None else int(not v)
         return None
 
     def rec(n):
@@ -2019,6 +2064,322 @@ def eliminate_local_memos(body, facts, memo=None):
     return removed
 
 
+def eliminate_branch_memos(body, facts, memo=None):
+    """N6b: a one-entry memo in hit/miss form
+
+        bool have = false; K1 k1; K2 k2; V val;                                   (declared in an enclosing scope S)
+        if (have && k1 == a && k2 == b) { out = val; REST }                       hit
+        else { A..  (somewhere, in exactly one block:)  k1 = a; k2 = b; val = E; have = true; out = E; REST }
+
+    is its miss branch without the memo stores, when
+      * the hit branch is what the storing block does after its stores, with E for val (so a hit repeats the stored outcome);
+      * every statement in S that writes something the lookup reads is followed, in its own block, by `have = false`;
+      * the memo variables are touched nowhere else.
+    Returns the number of memos removed."""
+    removed = 0
+    decl_block = {}
+    for b in walk(body):
+        if b.get("k") == "Block":
+            for st in b.get("s", []):
+                if isinstance(st, dict) and st.get("k") == "Decl":
+                    for v in st.get("vars", []):
+                        if "id" in v:
+                            decl_block[v["id"]] = (b, st, v)
+
+    def local_id(e):
+        u = ir.unwrap_all_casts(e)
+        if isinstance(u, dict) and u.get("k") == "Ref" and u.get("d") == "local":
+            return u.get("id")
+        return None
+
+    def conj(e):
+        u = unwrap(e)
+        if isinstance(u, dict) and u.get("k") == "Bin" and u.get("op") == "&&":
+            return conj(u["lhs"]) + conj(u["rhs"])
+        return [u]
+
+    def eq_sides(u):
+        if not isinstance(u, dict):
+            return None
+        if u.get("k") == "Bin" and u.get("op") == "==":
+            return u.get("lhs"), u.get("rhs")
+        if u.get("k") in ("OpCall", "Call") and (u.get("op") == "==" or (ir.callee_name(u) or "") == "operator==") and len(u.get("args", [])) == 2:
+            return u["args"][0], u["args"][1]
+        return None
+
+    def store_of(st):
+        u = unwrap(st) if isinstance(st, dict) else None
+        if isinstance(u, dict) and u.get("k") == "Bin" and u.get("op") == "=" and local_id(u.get("lhs")) is not None:
+            return local_id(u["lhs"]), u["rhs"]
+        if isinstance(u, dict) and u.get("k") == "OpCall" and u.get("op") == "=" and len(u.get("args", [])) == 2 and local_id(u["args"][0]) is not None:
+            return local_id(u["args"][0]), u["args"][1]
+        return None
+
+    def strip_copy(e):
+        u = ir.unwrap_all_casts(e)
+        while isinstance(u, dict) and u.get("k") == "Construct" and u.get("copymove") and len(u.get("args", [])) == 1:
+            u = ir.unwrap_all_casts(u["args"][0])
+        return u
+
+    for B in [b for b in walk(body) if b.get("k") == "Block"]:
+        sts = B.get("s", [])
+        for idx, I in enumerate(list(sts)):
+            if not (isinstance(I, dict) and I.get("k") == "If" and I.get("else") is not None and I.get("condvar") is None):
+                continue
+            cs = conj(I.get("cond"))
+            flag = None
+            keys = {}           # key variable id -> key expression
+            okc = True
+            for c in cs:
+                if local_id(c) is not None and (decl_block.get(local_id(c), (None, None, {}))[2].get("t") or "") == "bool" and flag is None:
+                    flag = local_id(c)
+                    continue
+                e = eq_sides(c)
+                if e is None:
+                    okc = False
+                    break
+                a, b = e
+                if local_id(a) is not None and local_id(a) in decl_block and local_id(a) not in keys:
+                    keys[local_id(a)] = b
+                elif local_id(b) is not None and local_id(b) in decl_block and local_id(b) not in keys:
+                    keys[local_id(b)] = a
+                else:
+                    okc = False
+                    break
+            if not okc or flag is None or not keys or flag not in decl_block:
+                continue
+            # the storing block in the miss branch
+            leaf = None
+            for blk in walk(I["else"]):
+                if blk.get("k") != "Block":
+                    continue
+                st_ = [store_of(x) for x in blk.get("s", [])]
+                ids = [x[0] for x in st_ if x is not None]
+                if flag in ids:
+                    if leaf is not None:
+                        leaf = "many"
+                        break
+                    leaf = blk
+            if leaf is None or leaf == "many":
+                continue
+            stores = {}
+            rest_leaf = []
+            bad = False
+            for x in leaf.get("s", []):
+                so = store_of(x)
+                if so is not None and so[0] in decl_block and not any(y is decl_block[so[0]][1] for y in walk(I)) and \
+                        (so[0] == flag or so[0] in keys or (so[0] not in stores and not rest_leaf and decl_block[so[0]][0] is decl_block[flag][0])):
+                    if so[0] in stores:
+                        bad = True
+                    stores[so[0]] = so[1]
+                else:
+                    rest_leaf.append(x)
+            if bad or flag not in stores or ir.const_value(stores[flag]) not in (1, True) or not all(k_ in stores for k_ in keys):
+                continue
+            if not all(ir.show(strip_copy(stores[k_])) == ir.show(strip_copy(keys[k_])) for k_ in keys):
+                continue
+            vals = {k_: v_ for k_, v_ in stores.items() if k_ != flag and k_ not in keys}
+            if not vals:
+                continue
+            memo_ids = set(stores)
+
+            # hit branch == rest of the leaf with E for val
+            def rep(n):
+                if isinstance(n, list):
+                    return [rep(y) for y in n]
+                if not isinstance(n, dict):
+                    return n
+                if n.get("k") == "Ref" and n.get("d") == "local" and n.get("id") in vals:
+                    return copy.deepcopy(vals[n["id"]])
+                return {kk: (rep(v) if isinstance(v, (dict, list)) else v) for kk, v in n.items()}
+            hit = [x for x in ir.stmts(I["then"]) if not (isinstance(x, dict) and x.get("k") == "Null")]
+            miss = [x for x in rest_leaf if not (isinstance(x, dict) and x.get("k") == "Null")]
+
+            def txt(lst):
+                return [ir.show(ir.unwrap_all_casts(x)) if not ir.is_stmt_kind(x) else json_key(x) for x in lst]
+
+            def json_key(x):
+                return repr(_shape(x))
+            if [_shape(x) for x in rep(hit)] != [_shape(x) for x in miss]:
+                continue
+            # nothing in the miss branch other than the leaf's stores mentions the memo; E mentions no memo variable
+            def mentions(n, ids):
+                return any(x.get("k") == "Ref" and x.get("d") == "local" and x.get("id") in ids for x in walk(n))
+            store_nodes = set()
+            for x in leaf.get("s", []):
+                so = store_of(x)
+                if so is not None and so[0] in memo_ids:
+                    store_nodes.add(id(x))
+            leak = False
+            for x, parents in ir.walk_with_parents(I["else"]):
+                if x.get("k") == "Ref" and x.get("d") == "local" and x.get("id") in memo_ids:
+                    if not any(id(p_) in store_nodes for p_ in parents + (x,)):
+                        leak = True
+            if leak or any(mentions(v_, memo_ids) for v_ in vals.values()):
+                continue
+            # initial state: the flag starts out false
+            fb, fst, fv = decl_block[flag]
+            if fv.get("init") is None or ir.const_value(fv["init"]) not in (0, False):
+                continue
+            # other mentions of the memo variables: only `flag = false` statements
+            invalidations = []
+            ok = True
+            for x, parents in ir.walk_with_parents(body):
+                if not (x.get("k") == "Ref" and x.get("d") == "local" and x.get("id") in memo_ids):
+                    continue
+                if any(p_ is I for p_ in parents):
+                    continue
+                if any(p_.get("k") == "Decl" for p_ in parents):
+                    continue            # its own declaration's initialiser cannot mention it; another's would be a read
+                stm = None
+                for p_ in reversed(parents):
+                    so = store_of(p_)
+                    if so is not None and so[0] == flag and x.get("id") == flag and ir.const_value(so[1]) in (0, False):
+                        stm = p_
+                        break
+                if stm is None:
+                    ok = False
+                    break
+                invalidations.append(stm)
+            if not ok:
+                continue
+            # stability of what the lookup reads
+            own = set()
+            for x in walk(I["else"]):
+                if x.get("k") == "Decl":
+                    for v in x.get("vars", []):
+                        own.add("l:%s#%s" % (v.get("n"), v.get("id")))
+            read_roots = set()
+            for x in walk(I["else"]):
+                if id(x) in store_nodes:
+                    continue
+                p_ = path(x) if x.get("k") in ("Ref", "Member", "This") else None
+                if p_ and p_[0] not in own:
+                    read_roots.add(p_[0])
+            key_roots = set()
+            for k_ in keys.values():
+                for x in walk(k_):
+                    if x.get("k") in ("Ref", "Member") and path(x):
+                        key_roots.add(path(x)[0])
+            out_roots = set()
+            for x in miss:
+                so = store_of(x)
+                if so is not None:
+                    out_roots.add("l:%s#%s" % (decl_block[so[0]][2].get("n"), so[0]) if so[0] in decl_block else None)
+            watch = read_roots - key_roots - out_roots - set("l:%s#%s" % (decl_block[i][2].get("n"), i) for i in memo_ids)
+            scope = fb.get("s", [])
+            scope = scope[[i for i, s_ in enumerate(scope) if s_ is fst][0] + 1:]
+            stable = True
+            inv_ids = set(id(x) for x in invalidations)
+
+            def check_list(lst):
+                """every statement of lst (recursively) that writes a watched root is followed in its list by an invalidation"""
+                nonlocal stable
+                for i_, s_ in enumerate(lst):
+                    if not isinstance(s_, dict) or s_ is I:
+                        continue
+                    direct = set()
+                    for x in walk(s_):
+                        if any(x is y for y in walk(I)):
+                            continue
+                        for wp, how in node_writes(x, facts, memo if memo is not None else {}):
+                            direct.add(wp[0] if wp else "*")
+                    if not (direct & watch) and "*" not in direct:
+                        continue
+                    # does a later statement of this list invalidate, with I not in between?
+                    later_ok = False
+                    for t_ in lst[i_ + 1:]:
+                        if any(y is I for y in walk(t_)):
+                            break
+                        if id(unwrap(t_)) in inv_ids or id(t_) in inv_ids:
+                            later_ok = True
+                            break
+                    if later_ok:
+                        continue
+                    # otherwise the write must be settled inside the statement's own blocks
+                    inner = [b_ for b_ in walk(s_) if b_.get("k") == "Block" and b_ is not s_]
+                    if s_.get("k") in ("Block",):
+                        check_list(s_.get("s", []))
+                    elif s_.get("k") in ("If", "While", "For", "Do", "RangeFor", "Try", "Switch"):
+                        # heads (conditions) must not write; bodies are checked on their own
+                        head_writes = set()
+                        for key_ in ("cond", "inc", "init", "range"):
+                            if isinstance(s_.get(key_), dict):
+                                for x in walk(s_[key_]):
+                                    for wp, how in node_writes(x, facts, memo if memo is not None else {}):
+                                        head_writes.add(wp[0] if wp else "*")
+                        if head_writes & watch or "*" in head_writes:
+                            stable = False
+                        for key_ in ("then", "else", "body"):
+                            if isinstance(s_.get(key_), dict):
+                                check_list(ir.stmts(s_[key_]))
+                        for h_ in s_.get("handlers", []) or []:
+                            check_list(ir.stmts(h_.get("body")))
+                        for c_ in s_.get("cases", []) or []:
+                            stable = False
+                    else:
+                        stable = False
+            check_list(scope)
+            if not stable:
+                continue
+            # rewrite: the If becomes its miss branch without the memo stores; invalidations and declarations go
+            leaf["s"] = [x for x in leaf.get("s", []) if id(x) not in store_nodes]
+
+            def straighten(lst):
+                # `if (c) <leaves> else X` inside what used to be the miss branch is `if (c) <leaves>; X`
+                out = []
+                for x in lst:
+                    if isinstance(x, dict) and x.get("k") == "If" and x.get("else") is not None and x.get("condvar") is None and \
+                            x.get("then") is not None and ir.always_leaves(x["then"]):
+                        y = dict(x)
+                        rest_ = ir.stmts(y.pop("else"))
+                        out.append(y)
+                        out.extend(straighten(rest_))
+                    elif isinstance(x, dict) and x.get("k") == "Null":
+                        continue
+                    else:
+                        out.append(x)
+                return out
+            B["s"] = sts[:idx] + straighten(ir.stmts(I["else"])) + sts[idx + 1:]
+            dead_nodes = inv_ids
+
+            def prune(n):
+                if isinstance(n, dict):
+                    for key_, v in list(n.items()):
+                        if key_ == "s" and isinstance(v, list):
+                            out = []
+                            for x in v:
+                                if isinstance(x, dict) and (id(x) in dead_nodes or id(unwrap(x)) in dead_nodes):
+                                    continue
+                                if isinstance(x, dict) and x.get("k") == "Decl" and x.get("vars") and all(y.get("id") in memo_ids for y in x["vars"]):
+                                    continue
+                                prune(x)
+                                out.append(x)
+                            n[key_] = out
+                        elif isinstance(v, (dict, list)):
+                            prune(v)
+                elif isinstance(n, list):
+                    for x in n:
+                        prune(x)
+            prune(body)
+            removed += 1
+            break
+    return removed
+
+
+def _shape(n):
+    """structure of a statement / expression without line numbers and local ids' declaration details"""
+    if isinstance(n, list):
+        return [_shape(x) for x in n]
+    if not isinstance(n, dict):
+        return n
+    if n.get("k") == "Cast" and n.get("style") == "implicit":
+        return _shape(n.get("e"))
+    if n.get("k") == "Construct" and n.get("copymove") and len(n.get("args", [])) == 1:
+        return _shape(n["args"][0])
+    return {k: _shape(v) for k, v in sorted(n.items()) if k not in ("l", "t", "tw", "cv", "from", "ck", "elidable")}
+
+
 _SROA_COUNTER = [300000]
 
 
@@ -2039,10 +2400,45 @@ def scalar_replace_aggregates(body, facts):
                 continue
             init = unwrap(v.get("init")) if v.get("init") is not None else None
             elems = None
-            if init is None or (isinstance(init, dict) and init.get("k") == "Construct" and not init.get("args") and not init.get("copymove")):
+            user_ctor = isinstance(init, dict) and init.get("k") == "Construct" and not init.get("copymove") and helper_type(facts, t) and \
+                any(c_.get("cls") == t and c_.get("ctor") and c_["sig"] == (init.get("callee") or {}).get("sig", []) and (c_.get("inits") or ir.stmts(c_.get("body_raw", c_.get("body"))))
+                    for c_ in list(facts.functions.values()) + list(getattr(facts, "absorbed", {}).values()))
+            if init is None or (isinstance(init, dict) and init.get("k") == "Construct" and not init.get("args") and not init.get("copymove") and not user_ctor):
                 elems = None
             elif isinstance(init, dict) and init.get("k") == "InitList" and len(init.get("c", [])) == len(r["fields"]):
                 elems = init["c"]
+            elif isinstance(init, dict) and init.get("k") == "Construct" and not init.get("copymove") and helper_type(facts, t):
+                # a constructor that only initialises members from its parameters: `Guard g(block)` with `: m_b(block), m_armed(false)`
+                cal = init.get("callee") or {}
+                cands = [c_ for c_ in facts.functions.values() if c_.get("cls") == t and c_.get("ctor") and c_["sig"] == cal.get("sig", [])]
+                cands = cands[:1] if cands and len(set((c_.get("file"), c_.get("line")) for c_ in cands)) == 1 else cands
+                if len(cands) != 1 or ir.stmts(cands[0].get("body_raw", cands[0].get("body"))):
+                    continue
+                ctor = cands[0]
+                pidx = {p_["id"]: i_ for i_, p_ in enumerate(ctor.get("params", []))}
+
+                def sub_(e_):
+                    if isinstance(e_, list):
+                        return [sub_(x_) for x_ in e_]
+                    if not isinstance(e_, dict):
+                        return e_
+                    if e_.get("k") == "Ref" and e_.get("d") == "param" and e_.get("id") in pidx and pidx[e_["id"]] < len(init.get("args", [])):
+                        return copy.deepcopy(init["args"][pidx[e_["id"]]])
+                    return {kk: (sub_(vv) if isinstance(vv, (dict, list)) else vv) for kk, vv in e_.items()}
+                by_member = {i_.get("member"): i_.get("init") for i_ in ctor.get("inits", []) or [] if i_.get("member") and i_.get("init") is not None}
+                elems = []
+                okc = True
+                for f_ in r["fields"]:
+                    if f_["n"] in by_member:
+                        elems.append(sub_(by_member[f_["n"]]))
+                    elif f_.get("init") is not None:
+                        elems.append(copy.deepcopy(f_["init"]))
+                    elif "std::" in (f_.get("t") or "") and not (f_.get("t") or "").endswith(("*", "&")):
+                        elems.append(None)          # a library object left to its default constructor
+                    else:
+                        okc = False
+                if not okc:
+                    continue
             else:
                 continue
             decls.append((n, v, r, elems, init is not None))
@@ -2052,6 +2448,38 @@ def scalar_replace_aggregates(body, facts):
     for n, ps in ir.walk_with_parents(body):
         if n.get("k") == "Ref" and n.get("d") == "local":
             # the field access may sit around value-preserving wrappers (`T(x).f` after a by-value return was expanded)
+            chain = list(ps)
+            while chain and (chain[-1].get("k") == "Cast" or (chain[-1].get("k") == "Construct" and chain[-1].get("copymove") and len(chain[-1].get("args", [])) == 1)):
+                chain.pop()
+            parents.setdefault(n.get("id"), []).append((n, chain[-1] if chain else None))
+    # `x = T{a, b};` as a statement is `x.f1 = a; x.f2 = b;`
+    by_id = {v.get("id"): r for d, v, r, elems, constructed in decls}
+    for b in walk(body):
+        if b.get("k") != "Block":
+            continue
+        out = []
+        changed = False
+        for st in b.get("s", []):
+            u = unwrap(st) if isinstance(st, dict) else None
+            if isinstance(u, dict) and u.get("k") == "Bin" and u.get("op") == "=":
+                l = unwrap(u.get("lhs"))
+                rr = ir.unwrap_all_casts(u.get("rhs"))
+                while isinstance(rr, dict) and rr.get("k") == "Construct" and rr.get("copymove") and len(rr.get("args", [])) == 1:
+                    rr = ir.unwrap_all_casts(rr["args"][0])
+                if isinstance(l, dict) and l.get("k") == "Ref" and l.get("d") == "local" and l.get("id") in by_id and \
+                        isinstance(rr, dict) and rr.get("k") == "InitList" and len(rr.get("c", [])) == len(by_id[l["id"]]["fields"]):
+                    for f_, e_ in zip(by_id[l["id"]]["fields"], rr["c"]):
+                        out.append({"k": "Bin", "op": "=", "l": u.get("l"), "t": f_["t"],
+                                    "lhs": {"k": "Member", "field": True, "n": f_["n"], "t": f_["t"], "l": u.get("l"), "base": copy.deepcopy(l)},
+                                    "rhs": e_})
+                    changed = True
+                    continue
+            out.append(st)
+        if changed:
+            b["s"] = out
+    parents = {}
+    for n, ps in ir.walk_with_parents(body):
+        if n.get("k") == "Ref" and n.get("d") == "local":
             chain = list(ps)
             while chain and (chain[-1].get("k") == "Cast" or (chain[-1].get("k") == "Construct" and chain[-1].get("copymove") and len(chain[-1].get("args", [])) == 1)):
                 chain.pop()
@@ -2071,12 +2499,14 @@ def scalar_replace_aggregates(body, facts):
             ids[f_["n"]] = _SROA_COUNTER[0]
             fi = None
             if elems is not None:
-                fi = copy.deepcopy(elems[i])
+                fi = copy.deepcopy(elems[i]) if elems[i] is not None else None
             elif constructed and f_.get("init") is not None:
                 fi = copy.deepcopy(f_["init"])
             nv = {"n": "%s.%s" % (v.get("n"), f_["n"]), "id": ids[f_["n"]], "t": f_["t"], "tw": f_.get("tw", f_["t"]), "l": v.get("l")}
             if fi is not None:
                 nv["init"] = fi
+            if (f_.get("t") or "").endswith("&") or f_.get("ref"):
+                nv["ref"] = True
             new_vars.append({"k": "Decl", "l": d.get("l"), "vars": [nv]})
         for u_, p_ in uses:
             fn_ = p_["n"]
@@ -2101,6 +2531,512 @@ def scalar_replace_aggregates(body, facts):
                         out.append(x)
                 b["s"] = out
     return count
+
+# ------------------------------------------------------------------------------------------------ N9: local flags
+
+_THROWING = ("Call", "MCall", "OpCall", "Construct", "Throw", "New")
+
+
+def fold_local_flags(body, facts):
+    """N9: flow-sensitive constant propagation for bool locals that are only ever tested and assigned constants-or-values at
+    statement level (`bool armed = false; ...; armed = true; if (armed) ..`).  In a handler a flag has the value it had when
+    the try block was entered if every store to it in the try block is a statement of that block with nothing that can throw
+    after it (the guard's own action, which runs in a destructor, cannot throw into the handler).  Returns the number of
+    reads replaced by their value."""
+    if any(n.get("k") in ("Goto", "Label") for n in walk(body)):
+        return 0
+    cands = {}
+    for n in walk(body):
+        if n.get("k") == "Decl":
+            for v in n.get("vars", []):
+                if (v.get("t") or "").replace("const ", "") == "bool" and not v.get("ref") and "id" in v and not v.get("static"):
+                    cands[v["id"]] = v
+    if not cands:
+        return 0
+    # every mention must be a plain read in a boolean context or the target of a statement-level `=`
+    stmt_stores = {}
+    bad = set()
+    in_lambda = set()
+    for n in walk(body):
+        if n.get("k") == "Lambda":
+            for x in walk(n):
+                if x.get("k") == "Ref" and x.get("d") == "local" and x.get("id") in cands:
+                    in_lambda.add(x["id"])
+    bad |= in_lambda
+    stmt_nodes = set()
+    for b in walk(body):
+        if b.get("k") == "Block":
+            for st in b.get("s", []):
+                u = unwrap(st) if isinstance(st, dict) else None
+                if isinstance(u, dict) and u.get("k") == "Bin" and u.get("op") == "=":
+                    l = unwrap(u.get("lhs"))
+                    if isinstance(l, dict) and l.get("k") == "Ref" and l.get("d") == "local" and l.get("id") in cands:
+                        stmt_nodes.add(id(l))
+                        stmt_stores.setdefault(l["id"], []).append(u)
+        for key in ("then", "else", "body"):
+            st = b.get(key) if b.get("k") in ("If", "While", "For", "Do", "RangeFor") else None
+            u = unwrap(st) if isinstance(st, dict) else None
+            if isinstance(u, dict) and u.get("k") == "Bin" and u.get("op") == "=":
+                l = unwrap(u.get("lhs"))
+                if isinstance(l, dict) and l.get("k") == "Ref" and l.get("d") == "local" and l.get("id") in cands:
+                    stmt_nodes.add(id(l))
+                    stmt_stores.setdefault(l["id"], []).append(u)
+    for n, ps in ir.walk_with_parents(body):
+        if n.get("k") == "Ref" and n.get("d") == "local" and n.get("id") in cands and id(n) not in stmt_nodes:
+            chain = list(ps)
+            while chain and chain[-1].get("k") in ("Cast", "Paren"):
+                chain.pop()
+            par = chain[-1] if chain else None
+            if par is None:
+                bad.add(n["id"])
+            elif par.get("k") in ("If", "Cond", "Return", "Decl", "While", "For", "Do"):
+                pass
+            elif par.get("k") == "Un" and par.get("op") == "!":
+                pass
+            elif par.get("k") == "Bin" and par.get("op") in ("&&", "||", "==", "!="):
+                pass
+            elif par.get("k") == "Bin" and par.get("op") == "=" and any(x is n for x in walk(par.get("rhs"))):
+                pass
+            else:
+                bad.add(n["id"])
+    cands = {i: v for i, v in cands.items() if i not in bad}
+    if not cands:
+        return 0
+    count = [0]
+
+    def ev(e):
+        e = ir.unwrap_all_casts(e)
+        if not isinstance(e, dict):
+            return None
+        k = e.get("k")
+        if k == "Lit" and isinstance(e.get("v"), bool):
+            return e["v"]
+        cv = ir.const_value(e)
+        if cv is not None and not isinstance(cv, str) and (e.get("t") or "").replace("const ", "") == "bool":
+            return bool(cv)
+        if k == "Un" and e.get("op") == "!":
+            v = ev(e.get("e"))
+            return None if v is None else not v
+        if k == "Bin" and e.get("op") in ("&&", "||"):
+            a, b = ev(e.get("lhs")), ev(e.get("rhs"))
+            if e["op"] == "&&":
+                if a is False or b is False:
+                    return False if a is False or is_pure(e.get("lhs"), facts) else None
+                return True if a is True and b is True else None
+            if a is True or b is True:
+                return True if a is True or is_pure(e.get("lhs"), facts) else None
+            return False if a is False and b is False else None
+        return None
+
+    def subst(e, env):
+        if isinstance(e, list):
+            for x in e:
+                subst(x, env)
+            return
+        if not isinstance(e, dict) or e.get("k") == "Lambda":
+            return
+        if e.get("k") == "Ref" and e.get("d") == "local" and e.get("id") in env and id(e) not in stmt_nodes:
+            val = env[e["id"]]
+            l = e.get("l")
+            e.clear()
+            e.update({"k": "Lit", "v": val, "t": "bool", "cv": int(val), "l": l})
+            count[0] += 1
+            return
+        for c in ir.children(e):
+            subst(c, env)
+
+    def stored_in(n):
+        out = set()
+        for x in walk(n):
+            if x.get("k") == "Bin" and x.get("op") == "=":
+                l = unwrap(x.get("lhs"))
+                if isinstance(l, dict) and l.get("k") == "Ref" and l.get("d") == "local" and l.get("id") in cands:
+                    out.add(l["id"])
+        return out
+
+    def merge(envs):
+        envs = [e for e in envs if e is not None]
+        if not envs:
+            return None
+        out = {}
+        for i, v in envs[0].items():
+            if all(i in e and e[i] == v for e in envs[1:]):
+                out[i] = v
+        return out
+
+    def can_throw(st):
+        return any(x.get("k") in _THROWING and not x.get("guard_action") for x in _walk_skipping_actions(st))
+
+    def handler_env(env0, tbody):
+        sts = ir.stmts(tbody)
+        env = dict(env0)
+        for i in stored_in(tbody):
+            first = None
+            ok = True
+            for idx, st in enumerate(sts):
+                u = unwrap(st) if isinstance(st, dict) else None
+                top = isinstance(u, dict) and u.get("k") == "Bin" and u.get("op") == "=" and \
+                    isinstance(unwrap(u.get("lhs")), dict) and unwrap(u["lhs"]).get("id") == i and unwrap(u["lhs"]).get("d") == "local"
+                if top:
+                    if first is None:
+                        first = idx
+                    if can_throw(u.get("rhs")):
+                        ok = False
+                elif i in stored_in(st):
+                    ok = False
+            if ok and first is not None and not any(can_throw(st) for st in sts[first + 1:]):
+                continue
+            env.pop(i, None)
+        return env
+
+    def size(n):
+        return sum(1 for _ in walk(n))
+
+    def reads_cand(e):
+        return [x["id"] for x in walk(e) if x.get("k") == "Ref" and x.get("d") == "local" and x.get("id") in cands and id(x) not in stmt_nodes]
+
+    def block(sts, env):
+        i = 0
+        while i < len(sts):
+            st = sts[i]
+            if env is None:
+                # unreachable rest: leave as it is
+                return None
+            # jump threading: `if (c) {..; f = true;} else {..; f = false;}  if (f) X  rest` -- the statements after the
+            # if/else move into both branches when the flag they start by testing is a different constant at the end of each
+            tail = sts[i + 1:]
+            if isinstance(st, dict) and st.get("k") == "If" and st.get("else") is not None and st.get("then") is not None and \
+                    st.get("init") is None and st.get("condvar") is None and tail and isinstance(tail[0], dict) and \
+                    tail[0].get("k") == "If" and isinstance(tail[0].get("cond"), dict) and sum(size(t_) for t_ in tail) <= 80 and \
+                    not any(x.get("k") in ("Label", "Case", "Default") for t_ in tail for x in walk(t_)):
+                tested = [v_ for v_ in reads_cand(tail[0]["cond"]) if v_ not in env]
+                if tested:
+                    saved = count[0]
+                    probe = copy.deepcopy(st)
+                    # (the probe shares no nodes with the tree: stmt_nodes are looked up by identity, so re-register its stores)
+                    extra = _register_stores(probe, cands, stmt_nodes)
+                    e1 = stmt(probe["then"], dict(env))
+                    e2 = stmt(probe["else"], dict(env))
+                    for x_ in extra:
+                        stmt_nodes.discard(x_)
+                    count[0] = saved
+                    if e1 is not None and e2 is not None and any(v_ in e1 and v_ in e2 and e1[v_] != e2[v_] for v_ in tested):
+                        t2 = copy.deepcopy(tail)
+                        _register_stores({"k": "Block", "s": t2}, cands, stmt_nodes)
+                        st["then"] = {"k": "Block", "l": st["then"].get("l"), "s": ir.stmts(st["then"]) + t2}
+                        st["else"] = {"k": "Block", "l": st["else"].get("l"), "s": ir.stmts(st["else"]) + tail}
+                        del sts[i + 1:]
+                        count[0] += 1
+            env = stmt(st, env)
+            i += 1
+        return env
+
+    def stmt(st, env):
+        if not isinstance(st, dict):
+            return env
+        k = st.get("k")
+        if k == "Block":
+            return block(st.get("s", []), env)
+        if k == "Decl":
+            for v in st.get("vars", []):
+                if v.get("init") is not None:
+                    subst(v["init"], env)
+                if v.get("id") in cands:
+                    val = ev(v["init"]) if v.get("init") is not None else None
+                    if val is None:
+                        env.pop(v["id"], None)
+                    else:
+                        env[v["id"]] = val
+            return env
+        if k == "If":
+            if st.get("init") is not None or st.get("condvar") is not None:
+                for i in stored_in(st):
+                    env.pop(i, None)
+                return env
+            subst(st["cond"], env)
+            c = ev(st["cond"])
+            if c is not None:
+                taken = st.get("then") if c else st.get("else")
+                return stmt(taken, env) if taken is not None else env
+            e1 = stmt(st.get("then"), dict(env)) if st.get("then") is not None else dict(env)
+            e2 = stmt(st.get("else"), dict(env)) if st.get("else") is not None else dict(env)
+            return merge([e1, e2])
+        if k in ("While", "For", "Do", "RangeFor", "Switch"):
+            killed = stored_in(st)
+            env = {i: v for i, v in env.items() if i not in killed}
+            for key in ("init", "cond", "inc", "range"):
+                if isinstance(st.get(key), (dict, list)):
+                    if key == "init" and isinstance(st[key], dict) and st[key].get("k") == "Decl":
+                        stmt(st[key], dict(env))
+                    else:
+                        subst(st[key], env)
+            if k == "Switch":
+                for c in st.get("cases", []) or []:
+                    block(ir.stmts(c.get("body")) if isinstance(c.get("body"), dict) else (c.get("s") or []), dict(env))
+                if isinstance(st.get("body"), dict):
+                    stmt(st["body"], dict(env))
+            elif isinstance(st.get("body"), dict):
+                stmt(st["body"], dict(env))
+            return dict(env)
+        if k == "Try":
+            env0 = dict(env)
+            eb = stmt(st["body"], dict(env0))
+            outs = [eb]
+            for h in st.get("handlers", []):
+                outs.append(stmt(h["body"], handler_env(env0, st["body"])))
+            return merge(outs)
+        if k in ("Return", "Throw"):
+            subst(st, env)
+            return None
+        if k in ("Break", "Continue"):
+            return None
+        u = unwrap(st)
+        if isinstance(u, dict) and u.get("k") == "Bin" and u.get("op") == "=":
+            l = unwrap(u.get("lhs"))
+            if isinstance(l, dict) and l.get("k") == "Ref" and l.get("d") == "local" and l.get("id") in cands and id(l) in stmt_nodes:
+                subst(u["rhs"], env)
+                val = ev(u["rhs"])
+                if val is None:
+                    env.pop(l["id"], None)
+                else:
+                    env[l["id"]] = val
+                return env
+        subst(st, env)
+        for i in stored_in(st):
+            env.pop(i, None)
+        return env
+
+    # statements inside a loop body reached through `then`/`else`/`body` keys that are not Blocks are handled by stmt()
+    block(ir.stmts(body), {})
+    if not count[0]:
+        return 0
+    # fold what became constant, then drop flags nobody reads any more
+    fold_constants(body, facts.enums)
+    _fold_bool_conditions(body, ev)
+    reads = set()
+    for n in walk(body):
+        if n.get("k") == "Ref" and n.get("d") == "local" and n.get("id") in cands and id(n) not in stmt_nodes:
+            reads.add(n["id"])
+    _drop_rethrow_only_tries(body)
+    dead = set(i for i in cands if i not in reads and not any(can_throw(u.get("rhs")) for u in stmt_stores.get(i, [])) and
+               (cands[i].get("init") is None or not can_throw(cands[i]["init"])))
+    if dead:
+        _drop_flag(body, dead)
+    return count[0]
+
+
+def _register_stores(n, cands, stmt_nodes):
+    """statement-level `flag = ..` targets inside n (a copy of part of the tree) join stmt_nodes; returns the ids added"""
+    added = []
+    for b in walk(n):
+        lists = []
+        if b.get("k") == "Block":
+            lists.append(b.get("s", []))
+        for key in ("then", "else", "body"):
+            if b.get("k") in ("If", "While", "For", "Do", "RangeFor") and isinstance(b.get(key), dict):
+                lists.append([b[key]])
+        for lst in lists:
+            for st in lst:
+                u = unwrap(st) if isinstance(st, dict) else None
+                if isinstance(u, dict) and u.get("k") == "Bin" and u.get("op") == "=":
+                    l = unwrap(u.get("lhs"))
+                    if isinstance(l, dict) and l.get("k") == "Ref" and l.get("d") == "local" and l.get("id") in cands and id(l) not in stmt_nodes:
+                        stmt_nodes.add(id(l))
+                        added.append(id(l))
+    return added
+
+
+def split_stores(body, facts):
+    """N10: a scalar local that is stored at statement level and then read only further down the same block (until the next such
+    store) is a fresh single-assignment local per store: `x = a; use(x);` in one branch and `x = b; use(x);` in another
+    become `T x1 = a; use(x1);` / `T x2 = b; use(x2);`, which forward substitution then resolves.  Only when every read of
+    the local is covered that way and its address is never taken.  Returns the number of locals split."""
+    decls = {}
+    for n in walk(body):
+        if n.get("k") == "Decl":
+            for v in n.get("vars", []):
+                t = (v.get("t") or "").replace("const ", "")
+                if "id" in v and not v.get("ref") and not v.get("static") and not t.endswith(("&", "*", "]")) and \
+                        (t in ("bool", "char", "int", "unsigned int", "long", "unsigned long", "unsigned char", "unsigned short", "short", "size_t") or
+                         (facts.enums and t in facts.enums) or t.startswith(("uint", "int")) or t in ("std::size_t", "CDNS::index_t")):
+                    decls[v["id"]] = (n, v)
+    if not decls:
+        return 0
+    # disqualify: address taken, captured, ++/--/op=, by-reference arguments, nested (non-statement) stores
+    bad = set()
+    stores = {}         # id -> [(block, index, node)]
+    store_lhs = set()
+    for b in walk(body):
+        if b.get("k") == "Block":
+            for i, st in enumerate(b.get("s", [])):
+                u = unwrap(st) if isinstance(st, dict) else None
+                if isinstance(u, dict) and u.get("k") == "Bin" and u.get("op") == "=":
+                    l = unwrap(u.get("lhs"))
+                    if isinstance(l, dict) and l.get("k") == "Ref" and l.get("d") == "local" and l.get("id") in decls:
+                        stores.setdefault(l["id"], []).append((b, i, u))
+                        store_lhs.add(id(l))
+    for n, ps in ir.walk_with_parents(body):
+        if n.get("k") == "Lambda":
+            for x in walk(n):
+                if x.get("k") == "Ref" and x.get("d") == "local" and x.get("id") in decls:
+                    bad.add(x["id"])
+        if not (n.get("k") == "Ref" and n.get("d") == "local" and n.get("id") in decls) or id(n) in store_lhs:
+            continue
+        chain = list(ps)
+        while chain and chain[-1].get("k") in ("Cast", "Paren"):
+            chain.pop()
+        par = chain[-1] if chain else None
+        if par is None:
+            continue
+        if par.get("k") == "Un" and par.get("op") in ("&", "pre++", "post++", "pre--", "post--"):
+            bad.add(n["id"])
+        elif par.get("k") == "Bin" and (par.get("op") or "").endswith("=") and par["op"] not in ("==", "!=", "<=", ">=") and \
+                any(x is n for x in walk(par.get("lhs"))):
+            bad.add(n["id"])
+        elif par.get("k") in ("Call", "MCall", "OpCall", "Construct"):
+            sig = (par.get("callee") or {}).get("sig") or []
+            args = par.get("args", [])
+            if par.get("k") == "OpCall" and (par.get("callee") or {}).get("cls") and args:
+                args = args[1:]
+            for a_, t_ in zip(args, sig):
+                if any(x is n for x in walk(a_)) and t_.endswith("&") and not t_.startswith("const "):
+                    bad.add(n["id"])
+            if not (par.get("callee") or {}).get("sig") and par.get("k") != "Construct":
+                bad.add(n["id"])
+    count = 0
+    for vid, sl in stores.items():
+        if vid in bad:
+            continue
+        dnode, v = decls[vid]
+        if v.get("init") is not None and not is_pure(v["init"], facts):
+            continue
+        # regions
+        covered = set()
+        regions = []
+        ok = True
+        for b, i, u in sl:
+            sts = b.get("s", [])
+            end = len(sts)
+            for j in range(i + 1, len(sts)):
+                if any(bb is b and jj == j for bb, jj, _ in sl):
+                    end = j
+                    break
+            region = sts[i + 1:end]
+            # no store to the local nested inside the region
+            if any(any(x is uu for x in walk(r_)) for r_ in region for _, _, uu in sl):
+                ok = False
+                break
+            reads = [x for r_ in region for x in walk(r_) if x.get("k") == "Ref" and x.get("d") == "local" and x.get("id") == vid]
+            # reads inside a loop that also contains ... (the region is straight-line below the store: loops inside it are fine,
+            # the store dominates them and nothing in them stores)
+            for x in reads:
+                covered.add(id(x))
+            regions.append((b, i, u, reads))
+            # the right-hand side must not read the local itself
+            if any(x.get("k") == "Ref" and x.get("d") == "local" and x.get("id") == vid for x in walk(u.get("rhs"))):
+                ok = False
+                break
+        if not ok:
+            continue
+        all_reads = [x for x in walk(body) if x.get("k") == "Ref" and x.get("d") == "local" and x.get("id") == vid and id(x) not in store_lhs]
+        if any(id(x) not in covered for x in all_reads):
+            continue
+        # a store inside a loop whose region ends with the loop body while the local is read ... (covered: all reads are in regions)
+        for b, i, u, reads in regions:
+            _SROA_COUNTER[0] += 1
+            nid = _SROA_COUNTER[0]
+            if not reads and is_pure(u.get("rhs"), facts):
+                b["s"][i] = {"k": "Null", "l": u.get("l")}
+                continue
+            nv = {"n": v.get("n"), "id": nid, "t": v.get("t"), "tw": v.get("tw", v.get("t")), "l": u.get("l"), "init": u["rhs"]}
+            b["s"][i] = {"k": "Decl", "l": u.get("l"), "vars": [nv]}
+            for x in reads:
+                x["id"] = nid
+        # the original declaration goes
+        if len(dnode.get("vars", [])) == 1:
+            dnode["k"] = "Null"
+            dnode.pop("vars", None)
+        else:
+            dnode["vars"] = [y for y in dnode["vars"] if y.get("id") != vid]
+        count += 1
+    return count
+
+
+def _tidy(body):
+    """after threading: empty statements go, and so does what follows a statement that always leaves its block"""
+    for b in walk(body):
+        if b.get("k") == "Block":
+            out = []
+            for x in b.get("s", []):
+                if isinstance(x, dict) and x.get("k") == "Null":
+                    continue
+                out.append(x)
+                if isinstance(x, dict) and ir.always_leaves(x) and not any(y.get("k") in ("Label", "Case", "Default") for z in b["s"] for y in walk(z)):
+                    break
+            b["s"] = out
+
+
+def _walk_skipping_actions(n):
+    if isinstance(n, list):
+        for x in n:
+            yield from _walk_skipping_actions(x)
+        return
+    if not isinstance(n, dict) or n.get("guard_action"):
+        return
+    yield n
+    for c in ir.children(n):
+        yield from _walk_skipping_actions(c)
+
+
+def _drop_rethrow_only_tries(body):
+    """`try { B } catch (...) { throw; }` (what is left of a guard that was dismissed before anything could throw) is B"""
+    def only_rethrow(h):
+        sts = [x for x in ir.stmts(h.get("body")) if not (isinstance(x, dict) and x.get("k") == "Null")]
+        return len(sts) == 1 and sts[0].get("k") == "Throw" and sts[0].get("rethrow")
+    for b in walk(body):
+        if b.get("k") != "Block":
+            continue
+        out = []
+        for x in b.get("s", []):
+            if isinstance(x, dict) and x.get("k") == "Try" and x.get("synthetic") and x.get("handlers") and all(only_rethrow(h) for h in x["handlers"]):
+                out.extend(ir.stmts(x["body"]))
+            else:
+                out.append(x)
+        b["s"] = out
+
+
+def _fold_bool_conditions(body, ev):
+    for n in list(walk(body)):
+        if n.get("k") == "If" and isinstance(n.get("cond"), dict) and "condvar" not in n and "init" not in n:
+            c = ev(n["cond"])
+            if c is not None:
+                taken = n.get("then") if c else n.get("else")
+                keep = copy.deepcopy(taken) if isinstance(taken, dict) else {"k": "Null", "l": n.get("l")}
+                n.clear()
+                n.update(keep)
+
+
+def _drop_flag(n, dead):
+    if isinstance(n, dict):
+        for key, v in list(n.items()):
+            if key == "s" and isinstance(v, list):
+                out = []
+                for x in v:
+                    if isinstance(x, dict) and x.get("k") == "Decl" and x.get("vars") and all(y.get("id") in dead for y in x["vars"]):
+                        continue
+                    u = unwrap(x) if isinstance(x, dict) else None
+                    if isinstance(u, dict) and u.get("k") == "Bin" and u.get("op") == "=":
+                        l = unwrap(u.get("lhs"))
+                        if isinstance(l, dict) and l.get("k") == "Ref" and l.get("d") == "local" and l.get("id") in dead:
+                            continue
+                    _drop_flag(x, dead)
+                    out.append(x)
+                n[key] = out
+            elif isinstance(v, (dict, list)):
+                _drop_flag(v, dead)
+    elif isinstance(n, list):
+        for x in n:
+            _drop_flag(x, dead)
 
 
 def merge_decl_with_first_store(body):
@@ -2335,9 +3271,17 @@ def normalise(facts, do_inline=True, do_propagate=True):
                 f["body"] = copy.deepcopy(nb)
         stats["inlined_calls"] = sum(inl.inlined_calls.values())
         # helpers every call of which was inlined are analysed in their callers' context only
+        still_called = set()
+        for f in facts.functions.values():
+            if f.get("body") is not None:
+                for n in walk(f["body"]):
+                    if n.get("k") in ("Call", "MCall", "OpCall", "Construct") and isinstance(n.get("callee"), dict):
+                        still_called.add((n["callee"].get("qn"), tuple(n["callee"].get("sig") or ())))
         for key, cnt in inl.inlined_calls.items():
             if inl.kept_calls.get(key, 0) == 0 and key in facts.functions:
                 f = facts.functions[key]
+                if (f["qn"], tuple(f.get("sig") or ())) in still_called:
+                    continue
                 if f.get("internal") or f.get("access", 0) in (1, 2):
                     stats["helpers_absorbed"].append(f["qn"] + f.get("targs", ""))
                     facts.absorbed[key] = facts.functions.pop(key)
@@ -2356,13 +3300,22 @@ def normalise(facts, do_inline=True, do_propagate=True):
                 stats["optional_this"] = stats.get("optional_this", 0) + resolve_optional_this(f["body"])
                 stats["split_postinc"] = stats.get("split_postinc", 0) + split_postinc_deref(f["body"])
                 stats["memos_removed"] = stats.get("memos_removed", 0) + eliminate_local_memos(f["body"], facts, memo)
+                nb_ = eliminate_branch_memos(f["body"], facts, memo)
+                if nb_:
+                    stats["memos_removed"] += nb_
+                    stats["decl_merged"] += merge_decl_with_first_store(f["body"])
+                nf_ = fold_local_flags(f["body"], facts)
+                stats["flags_folded"] = stats.get("flags_folded", 0) + nf_
+                if nf_:
+                    stats["stores_split"] = stats.get("stores_split", 0) + split_stores(f["body"], facts)
+                    _tidy(f["body"])
                 stats["propagated_uses"] += propagate(f["body"], facts, memo)
                 stats["projected"] = stats.get("projected", 0) + project_aggregates(f["body"], facts)
                 fold_constants(f["body"], facts.enums)
                 if post_lift(f["body"], inl):
                     fold_constants(f["body"], facts.enums)
     stats["kept_calls"] = sum(inl.kept_calls.values())
-    stats["log"] = inl.log[:50]
+    stats["log"] = inl.log[:2000]
     facts.norm_stats = stats
     return stats
 
